@@ -1,9 +1,10 @@
 #!/bin/bash
-# runjob.sh '<job json>' : run one job on the newest cached sim binary, print the result JSON
+# runjob.sh '<job json>' : run one job on the newest cached sim binary (same mount-namespace layout as the driver), print the result JSON
 BIN=$(ls -t /verif/.cache/*/sim.test | head -1)
 D=$(mktemp -d /tmp/vjob.XXXX)
 echo "$1" > $D/jobs.jsonl
-mkdir $D/empty
-(cd $D && env -i HOME=$D PATH=$D/empty TMPDIR=$D GODEBUG=asynctimerchan=0 GOMAXPROCS=4 GOTRACEBACK=all VERIF_JOBS=$D/jobs.jsonl VERIF_OUT=$D/out.jsonl $BIN -test.run '^TestVerifWorker$' -test.timeout ${T:-120s} > $D/log 2>&1)
+mkdir -p $D/emptybin /tmp/vsimroot
+R=/tmp/vsimroot
+unshare -m sh -c "mount --bind $D $R && cd $R && env -i HOME=$R PATH=$R/emptybin TMPDIR=$R GODEBUG=asynctimerchan=0 GOMAXPROCS=4 GOTRACEBACK=all VERIF_JOBS=$R/jobs.jsonl VERIF_OUT=$R/out.jsonl $BIN -test.run '^TestVerifWorker\$' -test.timeout ${T:-120s} > $R/log 2>&1"
 cat $D/out.jsonl 2>/dev/null || tail -50 $D/log
 rm -rf $D
